@@ -771,6 +771,13 @@ func (fc *FnCtx) transCall(env *Env, e *CCall) (Val, types.Type) {
 			a, at := argT(0)
 			b, _ := argT(1)
 			return tb.App("s_cat", "Str", a, b), at
+		case "arrayOf":
+			// arrayOf(s): the backing array of a slice (nil for the nil slice); for aliasing facts
+			x, _ := argT(0)
+			if x.Sort != "Slice" {
+				fc.tfail("arrayOf needs a slice")
+			}
+			return tb.App("s_arr", "Ref", x), types.Typ[types.UnsafePointer]
 		case "tag":
 			x, _ := argT(0)
 			return tb.App("i_tag", "Int", x), intT
